@@ -331,6 +331,79 @@ fn cases(tier: &str, seed: u64) -> Vec<Case> {
             }
         }
     }
+    // BIP-322 with well-formed addresses of every kind x witness shapes (the verification library indexes into
+    // the witness: every item count and the key / signature lengths it branches on)
+    {
+        let gx = hex::decode("79be667ef9dcbbac55a06295ce870b07029bfcdb2dce28d959f2815b16f81798").unwrap();
+        let gy = hex::decode("483ada7726a3c4655da4fbfc0e1108a8fd17b448a68554199c47d08ffb10d4b8").unwrap();
+        let mut pk33 = vec![0x02u8];
+        pk33.extend_from_slice(&gx);
+        let mut pk65 = vec![0x04u8];
+        pk65.extend_from_slice(&gx);
+        pk65.extend_from_slice(&gy);
+        let h20 = vec![0x33u8; 20];
+        let scripts: Vec<(&str, Vec<u8>)> = vec![
+            ("p2pkh", [vec![0x76, 0xa9, 0x14], h20.clone(), vec![0x88, 0xac]].concat()),
+            ("p2sh", [vec![0xa9, 0x14], h20.clone(), vec![0x87]].concat()),
+            ("p2wpkh", [vec![0x00, 0x14], h20.clone()].concat()),
+            ("p2wsh", [vec![0x00, 0x20], vec![0x44u8; 32]].concat()),
+            ("p2tr", [vec![0x51, 0x20], gx.clone()].concat()),
+            ("p2tr (repository vector)", hex::decode("5120e0e224cd541454519b62047aa0891ea7b81a16598556aeb83a412a0b06a20aab").unwrap()),
+            ("p2tr (not a curve point)", [vec![0x51, 0x20], vec![0xffu8; 32]].concat()),
+            ("witness v2", [vec![0x52, 0x20], vec![0x44u8; 32]].concat()),
+        ];
+        let der = |n: usize, sighash: u8| -> Vec<u8> {
+            // DER signature of n bytes followed by the sighash byte
+            let rl = (n - 6) / 2;
+            let sl = n - 6 - rl;
+            let mut v = vec![0x30, (n - 2) as u8, 0x02, rl as u8];
+            v.extend(std::iter::repeat(0x01).take(rl));
+            v.push(0x02);
+            v.push(sl as u8);
+            v.extend(std::iter::repeat(0x01).take(sl));
+            v.push(sighash);
+            v
+        };
+        let wit = |items: &[Vec<u8>]| -> Vec<u8> {
+            let mut v = vec![items.len() as u8];
+            for i in items {
+                assert!(i.len() < 0xfd);
+                v.push(i.len() as u8);
+                v.extend_from_slice(i);
+            }
+            v
+        };
+        let witnesses: Vec<(&str, Vec<u8>)> = vec![
+            ("no items", wit(&[])),
+            ("one empty item", wit(&[vec![]])),
+            ("one item of 1 byte", wit(&[vec![1]])),
+            ("one item of 64 bytes", wit(&[vec![0x01; 64]])),
+            ("one item of 65 bytes", wit(&[[vec![0x01; 64], vec![0x00]].concat()])),
+            ("one item of 65 bytes, sighash 0x01", wit(&[[vec![0x01; 64], vec![0x01]].concat()])),
+            ("one item of 66 bytes", wit(&[vec![0x01; 66]])),
+            ("two empty items", wit(&[vec![], vec![]])),
+            ("signature of 71 bytes, compressed key", wit(&[der(70, 1), pk33.clone()])),
+            ("signature of 72 bytes, compressed key", wit(&[der(71, 1), pk33.clone()])),
+            ("signature of 71 bytes with sighash NONE, compressed key", wit(&[der(70, 2), pk33.clone()])),
+            ("signature of 71 bytes, uncompressed key", wit(&[der(70, 1), pk65.clone()])),
+            ("signature of 72 bytes, uncompressed key", wit(&[der(71, 1), pk65.clone()])),
+            ("signature of 71 bytes, key of 33 zero bytes", wit(&[der(70, 1), vec![0u8; 33]])),
+            ("signature of 70 bytes, compressed key", wit(&[der(69, 1), pk33.clone()])),
+            ("empty signature, compressed key", wit(&[vec![], pk33.clone()])),
+            ("71 bytes that are not DER, compressed key", wit(&[vec![0x30; 71], pk33.clone()])),
+            ("three items", wit(&[der(70, 1), pk33.clone(), vec![1, 2, 3]])),
+            ("item count larger than the data", vec![5, 1, 1]),
+            ("empty byte string", vec![]),
+        ];
+        for (sn, sc) in &scripts {
+            for (wn, w) in &witnesses {
+                for msg in [vec![], b"Hello World".to_vec()] {
+                    let d = verifyCall { pkscript: Bytes::from(sc.clone()), message: Bytes::from(msg.clone()), signature: Bytes::from(w.clone()) }.abi_encode();
+                    pre.push((0xfe, d, format!("verify({} address, message of {} bytes, witness: {})", sn, msg.len(), wn)));
+                }
+            }
+        }
+    }
     // 0xfc / 0xfd with invalid ABI (fails before any RPC)
     for d in [vec![], vec![0x55, 0x79, 0xa4, 0xa5], vec![0x55, 0x79, 0xa4, 0xa5, 1, 2, 3], vec![0xff; 31], vec![0; 200]] {
         pre.push((0xfd, d.clone(), format!("getTxDetails raw input {}", trunc(&hx(&d), 24))));
